@@ -248,6 +248,15 @@ impl Pick for &'static str {
         pick_str(i)
     }
 }
+impl Pick for std::borrow::Cow<'static, str> {
+    fn pick(i: u64) -> Self {
+        if i % 2 == 0 {
+            std::borrow::Cow::Borrowed(pick_str(i))
+        } else {
+            std::borrow::Cow::Owned(pick_str(i).to_string())
+        }
+    }
+}
 impl Pick for Box<str> {
     fn pick(i: u64) -> Box<str> {
         pick_str(i).into()
